@@ -87,8 +87,9 @@ def check(ctx):
     ctx.rule("R5", "spec-level resolution tests the running-alias stack before resolving; the proxy thread pushes the alias name inside the swap", floor=3)
 
     mod = ctx.repo.module(AL)
-    ev = mod.func("Aliases.eval_alias")
-    get = mod.func("Aliases.get")
+    _skip = ("eval_alias", "_normalize_return_command_result", "print_exception", "get", "swap")
+    ev = flat(ctx, mod.func("Aliases.eval_alias"), depth=2, skip=_skip)
+    get = flat(ctx, mod.func("Aliases.get"), depth=2, skip=_skip)
     st = f"{AL}:Aliases.eval_alias"
     cfg = CFG(ev)
     defs = df.all_defs(ev)
@@ -234,7 +235,12 @@ def check(ctx):
         a_arg = arg_of(c, acc_idx, acc_p)
         ok2 = False
         if isinstance(a_arg, ast.Name):
-            vals = [d.value for d in gdefs.get(a_arg.id, []) if d.kind == "assign"]
+            vals = []
+            for d in gdefs.get(a_arg.id, []):
+                if d.kind == "assign":
+                    vals.append(d.value)
+                elif d.kind == "unpack" and isinstance(d.value, (ast.Tuple, ast.List)) and d.index is not None and d.index < len(d.value.elts):
+                    vals.append(d.value.elts[d.index])
             shapes = {unparse(v) for v in vals}
             # args = [] | key[1:] | [] after a return_command alias consumed them
             ok2 = any(isinstance(v, ast.Subscript) and isinstance(v.slice, ast.Slice) and const_value(v.slice.lower) == 1 and v.slice.upper is None for v in vals) and all(
@@ -244,12 +250,14 @@ def check(ctx):
         ctx.ob("R2", gst, "get() passes key[1:] (all user arguments, in order) as the accumulated arguments", ok2, key="get|acc-args", where=loc(c))
 
     # ---- R3 forward scan
-    appends = [c for c in calls_in(ev) if call_name(c) == "decorators.append"]
+    dec_names = copies_of(df.all_defs(ev), "decorators")
+    value_names = copies_of(df.all_defs(ev), value_p)
+    appends = [c for c in calls_in(ev) if isinstance(c.func, ast.Attribute) and c.func.attr == "append" and unparse(c.func.value) in dec_names and not getattr(stmt_of(c), "_xv_call_marker", False)]
     if not appends:
         raise AnchorMissing(f"{st}: no decorators.append")
     for c in appends:
         loop = next((a for a in ancestors(c) if isinstance(a, (ast.For, ast.While))), None)
-        ok = isinstance(loop, ast.For) and isinstance(loop.iter, ast.Name) and loop.iter.id == "value"
+        ok = isinstance(loop, ast.For) and isinstance(loop.iter, ast.Name) and loop.iter.id in value_names
         ctx.ob("R3", st, "decorators are appended inside a forward `for v in value` scan", ok, key="dec|not-forward-scan", where=loc(c))
         if ok:
             hdr = node_in(cfg, loop)[0]
